@@ -57,6 +57,10 @@ def session_tests(f, g):
 
 def run(ctx):
     repo, cg = ctx.repo, ctx.cg
+    # the process-wide caches (ast_cache, extractors_cache, the translator cache) are keyed by id(<code object>): a key is one query's for as long as
+    # the process lives only if the code object is pinned -- otherwise a thread running an ad-hoc query is served another thread's translation
+    from .C05 import pin_rule
+    pin_rule(ctx, 'C22-PIN')
     shared = shared_module_dicts(repo)
     ctx.floor('C22-ATOM', len(shared), 10, 'module-level shared dictionaries')
     n = 0
